@@ -20,7 +20,8 @@ func init() {
 			"R2 also: usesNameAsTopLevel gives no file-dependent answer before the walk (no shortcut through an index the parser built). NOT decided: the package-name guess for unnamed imports (filepath.Base of the path — a heuristic on strings; seed C11-5 changes it and is not detectable from the shape of the code); correctness of usesNameAsTopLevel as a use test (shadowing, Ident.Obj), astutil internals, grouping and comment placement." +
 			" R6 what ImportMatcher.Match records is the file's own import (its four-row decision table)." +
 			" R7 a package name guessed from an import path goes through a module function every return of which is cut at the first non-identifier character (never path.Base / filepath.Base taken raw)." +
-			" R8 the name looked for before a matched import is deleted is not reset to \"\" behind the successful lookup of the import's record.",
+			" R8 the name looked for before a matched import is deleted is not reset to \"\" behind the successful lookup of the import's record." +
+			" R9 a failed change gives the file up (= C09-R4); R8 also rejects a guess made behind the successful lookup of the record.",
 		Trusted:     append([]string{"astutil.AddNamedImport / DeleteNamedImport touch only the import they are given"}, commonTrusted...),
 		Assumptions: commonAssumptions,
 	})
@@ -49,6 +50,9 @@ func runC11(r *an.Run) {
 	relabel(r, "R3-import-table", "R6-what-the-matcher-records-is-the-files-import")
 	guessedPackageNameIsAnIdentifier(r, "R7-a-guessed-package-name-is-an-identifier")
 	recordedNameDecidesDeletion(r, "R8-the-recorded-name-decides-whether-a-matched-import-is-still-used")
+	// a change that failed half-way has rewritten code but neither added its '+' imports nor cleaned its '-' imports:
+	// the file is given up, whatever other changes of the run did to it
+	c06MatchedFlagAs(r, "R9-a-failed-change-gives-the-file-up")
 }
 
 func c11WhoMayEdit(r *an.Run) {
